@@ -26,7 +26,7 @@ Never imports qce_circuit.  Fail-closed: unknown methods, fields, statements or 
 """
 import ast
 from pycoq import (Env, FnTranslator, parse_file, find_class, find_func, enum_members, coq_enum, coq_record, coq_type,
-                   TranslateError, dataclass_fields, decorators, fail, norm_function)
+                   TranslateError, dataclass_fields, decorators, fail, norm_function, append_one)
 
 D = 'src/qce_circuit/structure/acquisition_indexing/'
 SRC_REP = D + 'kernel_repetition_code.py'
@@ -339,7 +339,9 @@ def define(env, cls_name, fn, ret_ty, arg_types=None, static=False, option_mode=
     if body is None:
         # `r = []; for x in it: [if c: continue] r.append(e); <use of r>` is read as the comprehension it computes (pycoq N5, with
         # N4 for that one local only).  Annotations stay (they are read as types / up-casts here) and other locals stay (`let`s).
-        body = norm_function(fn, annotations=False, guards=False, single_use=False, helpers=False).body
+        # An `else` after a returning branch is dropped (N7) and a guard on `A or B` is read as the guards on A and on B (N8):
+        # the unmerged form is what /repo writes, so merged guards give the same text.
+        body = norm_function(fn, annotations=False, guards=False, single_use=False, helpers=False, split_or=True).body
     text = tr.body(body, loc, ret_ty)
     if static:
         env.statics[(cls_name, fn.name)] = (coqname, arg_types, ret_ty)
@@ -667,7 +669,10 @@ def generate(repo):
     iff = eb[3]
     need(isinstance(iff, ast.If) and unparse(iff.test) == 'qutrit_calibration_points' and not iff.orelse and len(iff.body) == 2
          and isinstance(iff.body[0], ast.AnnAssign) and unparse(iff.body[0].target) == 'calibration_kernel'
-         and unparse(iff.body[1]) == 'indexing_kernels += [calibration_kernel]', iff, "calibration branch of estimate")
+         # `indexing_kernels += [k]` or `indexing_kernels.append(k)`: the same in-place append, because the statement pinned just
+         # above binds indexing_kernels to the list `repetition_kernels` (pinned as `= []` plus `.append`)
+         and append_one(iff.body[1], 'indexing_kernels') is not None
+         and unparse(append_one(iff.body[1], 'indexing_kernels')) == 'calibration_kernel', iff, "calibration branch of estimate")
     calibration_ctor(env, iff.body[0].value, 'repetition_kernels', eloc, None, 'RepetitionExperimentKernel_estimate', out)
     out.append(define(env, 'RepetitionExperimentKernel', est, 'Z', static=True, option_mode=True,
                       coqname='RepetitionExperimentKernel_estimate_tail',
